@@ -147,7 +147,10 @@ def run_check(prop, tier="quick", seed=0, replay=None):
     traces_validated = 0
 
     # ---- 1. regenerated facts + harness build from the current tree
+    #         (steps 1-2 write shared files under lean/ and build/: serialised across concurrently running checks)
     binary = None
+    _lock = gobuild.build_lock()
+    _lock.__enter__()
     try:
         from . import factgen
         fg_broken = factgen.regenerate()
@@ -207,6 +210,7 @@ def run_check(prop, tier="quick", seed=0, replay=None):
             if lrc != 0:
                 broken.append("leanchecker rejected the property modules: " + lout[-500:])
 
+    _lock.__exit__()
     # ---- 3. correspondence streams + oracle
     rng = Rng(seed * 1000003 + int(pid[1:]))
     drv_ok = os.path.exists(runmod.DRV)
